@@ -144,6 +144,32 @@ def check_deep(case, ctx):
     return viol
 
 
+def sizes(tier):
+    from ..e1 import wide
+    return wide.specs(["fan-tasks", "list-items", "fan-one-fails", "fan-sync-first"], tier == "quick")
+
+
+def check_sizes(spec, ctx):
+    from ..e1 import wide
+    prog = wide.expand(spec)
+    return [(s, "%r: %s" % (spec, m[:600])) for s, m in check(prog, _Quiet(ctx, spec))]
+
+
+class _Quiet(object):
+    """labels of the generic check are not meaningful for the enumerated sizes"""
+
+    def __init__(self, ctx, spec):
+        self.ctx = ctx
+        self.spec = spec
+
+    def label(self, *a, **k):
+        pass
+
+    def nontrivial(self, case, on=True):
+        self.ctx.label("wide:" + self.spec["shape"])
+        self.ctx.nontrivial(self.spec)
+
 SUBS = [Sub("programs", check, strategy=strategy, reduce=reduce.candidates, examples={"quick": 6000, "thorough": 300000}),
         Sub("with-sync-reentry", check, strategy=strategy_sync, reduce=reduce.candidates, examples={"quick": 4000, "thorough": 150000}),
-        Sub("deep-chain", check_deep, enumerate=deep_cases)]
+        Sub("deep-chain", check_deep, enumerate=deep_cases),
+        Sub("sizes", check_sizes, enumerate=sizes)]
